@@ -171,9 +171,9 @@ func (e *expr) String() string {
 	case "acc":
 		return "." + e.Name
 	case "first":
-		return fmt.Sprintf("First(%d)", e.N)
+		return fmt.Sprintf("First(%s%d)", e.Value, e.N) // Value: leading zeros of the spelling
 	case "last":
-		return fmt.Sprintf("Last(%d)", e.N)
+		return fmt.Sprintf("Last(%s%d)", e.Value, e.N)
 	case "length":
 		return "Length"
 	case "only":
@@ -906,7 +906,9 @@ func genPipe(rt *rapid.T, st state, maxStages int, vars []variable) (pipe, state
 			}
 			st = state{t: a.out, isList: st.isList || a.list, nested: st.nested, nullable: a.nullable}
 		case k == 6 && st.isList:
-			p = append(p, &expr{Kind: rapid.SampledFrom([]string{"first", "last"}).Draw(rt, "firstLast"), N: rapid.IntRange(0, 7).Draw(rt, "n")})
+			// the count is a number as the grammar spells numbers: digits, so also "08" and "010"
+			p = append(p, &expr{Kind: rapid.SampledFrom([]string{"first", "last"}).Draw(rt, "firstLast"), N: rapid.SampledFrom([]int{0, 1, 2, 3, 4, 5, 6, 7, 8, 9, 10, 12, 1, 2, 3}).Draw(rt, "n"),
+				Value: rapid.SampledFrom([]string{"", "", "", "0", "00"}).Draw(rt, "zeros")})
 		case k == 7 && st.isList:
 			if cond, ok := condition(rt, st); ok {
 				p = append(p, &expr{Kind: "only", Pipes: []pipe{cond}})
